@@ -16,7 +16,7 @@ def gen_case(rng, variant):
     npool = rng.choice([1, 2, k, k + 1, 2 * k, 3 * k + 2])
     style = rng.choice(["ties", "ties", "real", "sorted", "rsorted", "signed", "negative", "tiny", "ulps"])
     if style == "ties":
-        vals = [0.0, -0.0, 0.5, 1.0, 1.0, 2.0, 3.0, 3.0, INF, 7.25]
+        vals = [0.0, -0.0, 0.5, 1.0, 1.0, 2.0, 3.0, 3.0, INF, 7.25, 3.4028234663852886e38]    # FLOAT32_MAX: what the angular surrogates return
         d = [rng.choice(vals) for _ in range(npool)]
     elif style == "real":
         d = [rng.random() * 10 for _ in range(npool)]
@@ -60,9 +60,8 @@ def gen_case(rng, variant):
 def impl_run(case):
     """Run the real numba kernels; return per-op (acc, prio, idx, flags) and the sorted row."""
     k = case["k"]; v = case["variant"]
-    pr = np.full(k, np.inf, dtype=np.float32)
-    ix = np.full(k, -1, dtype=np.int32)
-    fl = np.zeros(k, dtype=np.uint8)
+    H = utils.make_heap(1, k)                     # the real constructor: (indices, distances, flags), one row
+    ix, pr, fl = H[0][0], H[1][0], H[2][0]
     trace = []
     for t_, (n, f) in enumerate(case["offers"]):
         p = np.float32(case["redraw"][t_] if "redraw" in case else case["d"][n])
